@@ -9,7 +9,7 @@ if [ ! -d "$base/repo" ]; then
 fi
 git -C "$base/repo" checkout -q --detach "$(git -C /repo rev-parse HEAD)"
 mkdir -p "$base/verif"
-rsync -a --delete --exclude work --exclude replays --exclude harness/target --exclude .git /verif/ "$base/verif/"
+rsync -a --delete --exclude work --exclude replays --exclude harness/target --exclude harness/target-hfs --exclude facade/target --exclude .git /verif/ "$base/verif/"
 sed -i "s#path = \"/repo\"#path = \"$base/repo\"#" "$base/verif/harness/Cargo.toml"
 mkdir -p "$base/verif/work/cache"
 out=/verif/work/sweep_results_$slot.txt; : > "$out"
